@@ -19,7 +19,7 @@ C4Axes == {"x", "z"}
 LimitSyntaxes == {"radians", "xacro-degrees", "absent", "mixed"}
 Orders == {"natural", "reversed", "shuffled"}
 Nestings == {0, 1, 2}
-Namings == {"plain", "prefix-upper", "underscore", "kuka-a", "literal-prefix-a", "literal-prefix", "unicode-prefix", "explicit"}
+Namings == {"plain", "prefix-upper", "underscore", "kuka-a", "literal-prefix-a", "literal-prefix", "unicode-prefix", "mixed", "explicit"}
 Copies == {"single", "identical-duplicate", "duplicate-other-prefix", "second-robot"}
 
 VARIABLES lay, syn, stage
